@@ -1,4 +1,4 @@
-import PySMT.Proofs.C17Run
+import PySMT.Proofs.C17User
 /-!
 # C17 — text-interface solvers: property theorems
 
@@ -6,14 +6,29 @@ Model: `Impl/SmtSolver.lean` (the repaired `SmtLibSolver` + `Solver.is_sat/is_va
 `Spec/StrictSolver.lean`.  All theorems quantify over **all** sequences of API calls (induction over the sequence),
 all oracles (decision procedures, possibly stateful) behind the strict front end, all logics.
 
-`LegalRun U w ops` collects the hypotheses on a call sequence:
-* API preconditions: `pop(n)` stays within the levels the user pushed; `get_value` / `get_model` are called in sat mode;
+`LegalRun U w ops` collects the hypotheses on a call sequence, phrased over the state of the strict solver; it follows
+from `UserLegal` (theorem `user_legal_is_legal`), which only mentions what the caller knows -- the assertion stack he
+built, the formula of a preceding `is_sat`, the results he has seen:
+* API preconditions: `pop(n)` stays within the levels the user pushed; `get_value` / `get_model` directly after a check
+  that reported satisfiability (or after another value query);
 * one environment: symbols and sort declarations are determined by their names (`Universe`, guaranteed by
   `FormulaManager`/`TypeManager`), and the sort list of a formula covers the sorts of its symbols (`ExprOk`);
-* the exclusion for the known finding **F36**: `get_value(t)` only for terms whose symbols are in scope.
+* the exclusion for the known finding **F36**: `get_value(t)` only for terms whose symbols (and sorts) occur in the
+  live assertions.
 Because of the last item the theorems that need `LegalRun` carry the suffix `_partial`;
 `stream_legal_full_statement` is the statement without the exclusion and is refuted below by the F36 witness.
 The theorems without suffix hold for every sequence and every solver process.
+
+Modelling decisions the unconditional theorems rest on (each compared with the real wrapper on every run, layer K):
+* a reply is read as a whole: `_get_answer` reads a line, `_get_value_answer` reads the complete s-expression *before*
+  parsing it (repair F75; before it, a parse error in the middle of an `(error …)` reply left the rest in the pipe and
+  every later reply was attributed to the wrong command -- the model's atomic `recv` would have been wrong there);
+* a solver that acknowledges a pop beyond its stack drives the wrapper into `IndexError`s (`list.pop()` on the emptied
+  declaration stack, `declared_vars[-1]` after the declaration was sent): `popLevels`, `declareSort`, `declareVar`
+  raise `Err.indexError` at the same points (K: `OVERPOP` cases against `refsolver.py --lenient-pop`).
+Not modelled: `solve(assumptions)`, named assertions, function-typed symbols, `print_model`, non-incremental mode,
+and the factory-level shortcuts `Factory.is_sat/is_valid/is_unsat/get_model` (factory.py:576-667), which create a
+solver, make the calls modelled here, and exit.
 -/
 namespace PySMT.C17
 open PySMT.StrictSolver PySMT.SmtSolver
@@ -29,6 +44,13 @@ theorem replies_in_sync (S : Solver) (logic : String) (ops : List Api) :
   have h := synced_runFrom ops (create S logic) (synced_create S logic)
   ⟨h.inSync, h.queue⟩
 
+/-- the hypothesis `Good w` of `verdict_faithful` holds of every live object, whatever the solver and the calls -/
+example (S : Solver) (logic : String) (ops : List Api) (h : (run S logic ops).1.dead = false) :
+    Good (run S logic ops).1 := by
+  rcases synced_runFrom ops (create S logic) (synced_create S logic) with hg | ⟨hd, _⟩
+  · exact hg
+  · rw [show (runFrom (create S logic) ops).1.dead = (run S logic ops).1.dead from rfl, h] at hd; cases hd
+
 /-- **verdict_faithful.**  On an object whose pipe is in step, `solve()` returns `True` (`False`) only if the reply of
     the solver to this very `(check-sat)` was `sat` (`unsat`), and that exchange is the last block of the history. -/
 theorem verdict_faithful (S : Solver) (w w' : WState S) (hw : Good w) (b : Bool) (h : solve w = (w', .ok b)) :
@@ -38,7 +60,9 @@ theorem verdict_faithful (S : Solver) (w w' : WState S) (hw : Good w) (b : Bool)
   solve_faithful w hw w' b h
 
 /-- **shortcuts_negate.**  `is_valid(f)` is `not is_sat(Not f)` and `is_unsat(f)` is `not is_sat(f)`, with the same
-    effect on the object (the `Expr` of `is_valid` abstracts the negated formula). -/
+    effect on the object.  This only restates how `call` transcribes `Solver.is_valid` / `Solver.is_unsat`
+    (solvers/solver.py:133-158): the negation `Not(f).simplify()` is taken by the harness, which hands the model the
+    abstraction of the negated formula; that the transcription agrees with the code is tested (K), not proved. -/
 theorem shortcuts_negate (S : Solver) (w : WState S) (e : Expr) :
     (call (.isValid e) w).1 = (call (.isSat e) w).1 ∧ (call (.isUnsat e) w).1 = (call (.isSat e) w).1 ∧
     (∀ b, (call (.isSat e) w).2 = .bool b → (call (.isValid e) w).2 = .bool (!b) ∧ (call (.isUnsat e) w).2 = .bool (!b)) :=
@@ -99,6 +123,36 @@ theorem model_total_partial (U : Universe) (O : Oracle) (w : W O) (hr : Reachabl
       (call .getModel w).1.chan.solver = w.chan.solver :=
   getModel_total (hr.inv ha) hsat
 
+/-- **model_satisfies** (partial: F36 excluded; symbols are constants).  "… so it satisfies them": for any semantics
+    of terms that only looks at a term's own symbols, and a decision procedure that is sound for it (`OracleSound`: a
+    `sat` verdict comes with an assignment satisfying the live assertions whose values are the ones reported), the
+    model `get_model()` returns in sat mode satisfies every live assertion, the formula of a preceding `is_sat`
+    included (`modelValue m` reads the returned list of pairs as an assignment). -/
+theorem model_satisfies_partial (U : Universe) (O : Oracle) (sem : Semantics) (hO : OracleSound O sem) (w : W O)
+    (hr : Reachable U w) (ha : w.dead = false) (hsat : w.chan.solver.1.satMode = true) :
+    ∃ m, (call .getModel w).2 = .model m ∧ ∀ e ∈ live w.chan.solver.1.levels, sem.holds (modelValue m) e :=
+  getModel_satisfies sem hO (hr.inv ha) hsat
+
+/-- **user_legal_is_legal.**  Legality in the user's own terms (`UserLegal`: his assertion stack, the formula of a
+    preceding `is_sat`, and the results `(run …).2` he has seen) implies `LegalRun`: every `_partial` theorem holds
+    for all user-legal call sequences. -/
+theorem user_legal_is_legal (U : Universe) (O : Oracle) (logic : String) (ops : List Api)
+    (h : UserLegal U UState.init ops (run (Solver.strict O) logic ops).2) :
+    LegalRun U (create (Solver.strict O) logic) ops :=
+  legalRun_of_userLegal_run U O logic ops h
+
+/-- **stream_legal / decl_mirror for user-legal sequences** (partial: `UserLegal` contains the F36 exclusion in the
+    form "`get_value(t)`: the symbols of `t` occur in the live assertions"). -/
+theorem stream_legal_user_partial (U : Universe) (O : Oracle) (logic : String) (ops : List Api)
+    (h : UserLegal U UState.init ops (run (Solver.strict O) logic ops).2) :
+    exec O (State.init, O.init) (stream (run (Solver.strict O) logic ops).1)
+        = some (run (Solver.strict O) logic ops).1.chan.solver ∧
+    (run (Solver.strict O) logic ops).1.vars = (run (Solver.strict O) logic ops).1.chan.solver.1.levels.map (·.syms) ∧
+    (run (Solver.strict O) logic ops).1.sorts = (run (Solver.strict O) logic ops).1.chan.solver.1.levels.map (·.sorts) :=
+  have hl := legalRun_of_userLegal_run U O logic ops h
+  ⟨(ginv_run U O logic ops hl).final.accepted, (ginv_run U O logic ops hl).final.vars,
+   (ginv_run U O logic ops hl).final.sorts⟩
+
 /-- A fact about the specification itself: in every state the strict front end reaches without rejecting a command,
     every live assertion mentions only symbols in scope. -/
 theorem strict_live_in_scope (O : Oracle) (cs : List Cmd) (s : State × O.ω)
@@ -139,6 +193,30 @@ example : LegalRun univ (create (Solver.strict alwaysSat) "QF_UF") demoOps := by
   · simp only [LegalCall]; rfl
   · simp only [LegalCall]; decide
   · simp only [LegalCall]; exact ⟨rfl, rfl⟩
+
+/-- the same sequence is legal in the user's terms, given the results the model returns -/
+example : UserLegal univ UState.init demoOps (run (Solver.strict alwaysSat) "QF_UF" demoOps).2 := by
+  refine ⟨fun _ => okA, fun _ => trivial, fun _ => okX, fun _ => trivial, fun _ => ?_, fun _ => ?_, fun _ => okX,
+    fun _ => ?_, fun _ => trivial, fun _ => trivial, trivial⟩
+  · show UState.sat _ = true; rfl
+  · show 1 < List.length _; decide
+  · refine ⟨rfl, ?_, ?_⟩
+    · intro s hs
+      refine ⟨exA, by decide, ?_⟩
+      simpa [exA] using hs
+    · intro d hd; simp [exA] at hd
+
+/-- a semantics and a sound decision procedure exist (hypotheses of `model_satisfies_partial`): a term holds when all
+    its symbols have the value "v", and `alwaysSat` reports "v" for everything -/
+def demoSem : Semantics where
+  holds := fun μ e => ∀ s ∈ e.syms, μ s = "v"
+  coincidence := by
+    intro μ ν e h
+    constructor
+    · intro hm s hs; rw [← h s hs]; exact hm s hs
+    · intro hn s hs; rw [h s hs]; exact hn s hs
+
+example : OracleSound alwaysSat demoSem := fun _ _ _ => ⟨fun _ => "v", fun _ _ _ _ => rfl, fun _ => rfl⟩
 
 /-- … and the model really sends declarations in that run (the stream is not trivially legal) -/
 example : (stream (run (Solver.strict alwaysSat) "QF_UF" demoOps).1).length = 23 := by decide
